@@ -122,9 +122,14 @@ class Check(PropertyCheck):
         params = " ".join(map(str, [j1, j2, m1, m2, d1, d2, al, rc, k1, k2]))
         lines = ["new", gen.filter_line(f), "menv " + " ; ".join([params, head] + feats + [" ".join(map(str, draws))])]
         steps = 0
-        for ep in range(rng.randint(1, 3)):
+        many = rng.random() < 0.25       # many short (abandoned) episodes: what one episode leaves behind must not show in the next
+        for ep in range(rng.randint(5, 10) if many else rng.randint(1, 3)):
             lines.append("mreset")
-            for _ in range(rng.randint(0, j2 * m2)):
+            for _ in range(rng.randint(0, 3) if many and rng.random() < 0.7 else rng.randint(0, j2 * m2)):
+                if rng.random() < 0.12:
+                    # an illegal decision (unknown / finished job, ineligible machine, a machine id that exists only in the
+                    # padded action space): must raise and change nothing
+                    lines += ["mark injected", f"mbad {rng.randint(0, 200)} {m2 + 1}"]
                 lines.append(f"mauto {rng.randint(0, 50)}")
                 steps += 1
         meta.update({"kind": "multi", "steps": steps, "recirc": rc, "multi_machine": int(k2 > 1), "allow_less": al,
@@ -209,6 +214,10 @@ class Check(PropertyCheck):
             env = single = impl.env
             if env is None:
                 return res
+        elif cmd == "mbad":
+            if not out.endswith("raise"):
+                res.append(("not-rejected", f"`{line}`: the illegal decision {out.split()[1:3]} was accepted"))
+            return res
         elif cmd in ("mreset", "mstep", "mauto"):
             env = impl.menv
             if env is None:
